@@ -1463,6 +1463,162 @@ fn corr_kernel_offset(out: &mut Out, k: &Kern, a: &Vec<f64>, b: &Vec<f64>) {
 }
 
 // ------------------------------------------------------------------------------------------
+// api_trait_twin: fit / predict through `smartcore::api::{SupervisedEstimator, Predictor}` give exactly
+// what the inherent methods give on the training matrix and on fresh rows.  SVR::fit is a function of its
+// arguments: the two fitted models and all four predictions must coincide.  SVC::fit draws its visiting
+// order from an unseeded generator: only trait-predict vs inherent-predict on the SAME model is compared
+// (for the model fitted through the trait and for the one fitted by the inherent fit) and Ok/Err of the fits.
+// ------------------------------------------------------------------------------------------
+#[derive(Clone, Debug)]
+struct TwinSvm {
+    svc: bool,
+    k: Kern,
+    x: Vec<Vec<f64>>,
+    y: Vec<f64>,
+    c: f64,
+    eps: f64,
+    epoch: usize,
+    tol: f64,
+    q: Vec<Vec<f64>>,
+}
+impl TwinSvm {
+    fn to_json(&self) -> Value {
+        json!({"entry": "twin", "oracle": twin::ORACLE, "estimator": if self.svc { "SVC" } else { "SVR" }, "kernel": self.k.to_json(), "x": self.x, "y": self.y,
+               "c": self.c, "eps": self.eps, "epoch": self.epoch, "tol": self.tol, "q": self.q})
+    }
+    fn from_json(v: &Value) -> TwinSvm {
+        TwinSvm {
+            svc: v["estimator"].as_str() != Some("SVR"),
+            k: Kern::from_json(&v["kernel"]),
+            x: rows_from_json(&v["x"]),
+            y: f64s_from_json(&v["y"]),
+            c: v["c"].as_f64().unwrap_or(1.0),
+            eps: v["eps"].as_f64().unwrap_or(0.1),
+            epoch: v["epoch"].as_u64().unwrap_or(2) as usize,
+            tol: v["tol"].as_f64().unwrap_or(1e-3),
+            q: rows_from_json(&v["q"]),
+        }
+    }
+}
+fn twin_svm_k<K>(k: K, t: &TwinSvm) -> Option<twin::Diff>
+where
+    K: Kernel<f64, Vec<f64>> + serde::Serialize + Clone,
+{
+    type DM = DenseMatrix<f64>;
+    let xm = dense(&t.x);
+    let qm = dense(&t.q);
+    let yv = t.y.clone();
+    let probes = [("the training matrix", &xm), ("the fresh rows", &qm)];
+    if t.svc {
+        let p = SVCParameters::<f64, DM, LinearKernel>::default().with_c(t.c).with_epoch(t.epoch).with_tol(t.tol).with_kernel(k);
+        twin::check(
+            "SupervisedEstimator",
+            "Predictor",
+            "predict",
+            || twin::fit_sup::<SVC<f64, DM, K>, _, _, _>(&xm, &yv, p.clone()),
+            || SVC::<f64, DM, K>::fit(&xm, &yv, p.clone()),
+            |m: &SVC<f64, DM, K>, z: &DM| twin::predict(m, z),
+            |m: &SVC<f64, DM, K>, z: &DM| m.predict(z),
+            &probes,
+            |_m: &SVC<f64, DM, K>| String::new(),
+            false,
+        )
+    } else {
+        let p = SVRParameters::<f64, DM, LinearKernel>::default().with_c(t.c).with_eps(t.eps).with_tol(t.tol).with_kernel(k);
+        twin::check(
+            "SupervisedEstimator",
+            "Predictor",
+            "predict",
+            || twin::fit_sup::<SVR<f64, DM, K>, _, _, _>(&xm, &yv, p.clone()),
+            || SVR::<f64, DM, K>::fit(&xm, &yv, p.clone()),
+            |m: &SVR<f64, DM, K>, z: &DM| twin::predict(m, z),
+            |m: &SVR<f64, DM, K>, z: &DM| m.predict(z),
+            &probes,
+            |m: &SVR<f64, DM, K>| serde_json::to_string(m).unwrap_or_default(),
+            true,
+        )
+    }
+}
+thread_local! {
+    static TWIN_HANGS: std::cell::Cell<usize> = std::cell::Cell::new(0);
+}
+/// None = the comparison did not return within the watchdog (not judged here)
+fn twin_svm(t: &TwinSvm) -> Option<Option<twin::Diff>> {
+    if t.x.is_empty() || t.x[0].is_empty() || t.q.is_empty() {
+        return Some(None);
+    }
+    let t = t.clone();
+    let r = with_watchdog(30, move || match &t.k {
+        Kern::Linear => twin_svm_k(Kernels::linear(), &t),
+        Kern::Rbf(g) => twin_svm_k(Kernels::rbf(*g), &t),
+        Kern::Poly(d, g, c0) => twin_svm_k(Kernels::polynomial(*d, *g, *c0), &t),
+        Kern::Sigmoid(g, c0) => twin_svm_k(Kernels::sigmoid(*g, *c0), &t),
+    });
+    match r {
+        None => None,
+        Some(Err(msg)) => Some(Some(twin::Diff { call: "harness".into(), what: format!("the twin comparison itself panicked: {}", msg) })),
+        Some(Ok(d)) => Some(d),
+    }
+}
+fn check_twin(out: &mut Out, t: &TwinSvm) -> bool {
+    if HANGS.with(|h| h.get()) >= 3 || TWIN_HANGS.with(|h| h.get()) >= 2 {
+        out.count("twin:skipped-after-hangs");
+        return true;
+    }
+    let mut key: Vec<f64> = t.x.iter().flatten().cloned().collect();
+    key.extend(&t.y);
+    key.extend(t.q.iter().flatten());
+    key.extend(&[t.c, t.eps, t.epoch as f64, t.tol, -7.0]);
+    out.eval(hash_f64s(&key) ^ hash_of(&t.k.name()), t.x.len() >= 4);
+    out.count(&format!("twin:{}:{}", if t.svc { "svc" } else { "svr" }, t.k.name()));
+    match twin_svm(t) {
+        None => {
+            TWIN_HANGS.with(|h| h.set(h.get() + 1));
+            out.count("twin:watchdog(not judged)");
+            true
+        }
+        Some(None) => true,
+        Some(Some(_)) => {
+            // shrink: fewer fresh rows, fewer training rows
+            let mut cur = t.clone();
+            let mut progress = true;
+            let mut budget = 120;
+            while progress && budget > 0 {
+                progress = false;
+                let mut i = 0;
+                while cur.q.len() > 1 && i < cur.q.len() && budget > 0 {
+                    let mut c = cur.clone();
+                    c.q.remove(i);
+                    budget -= 1;
+                    if matches!(twin_svm(&c), Some(Some(_))) { cur = c; progress = true; } else { i += 1; }
+                }
+                let mut i = 0;
+                while cur.x.len() > 4 && i < cur.x.len() && budget > 0 {
+                    let mut c = cur.clone();
+                    c.x.remove(i);
+                    c.y.remove(i);
+                    budget -= 1;
+                    let two = !c.svc || c.y.iter().any(|v| *v != c.y[0]);
+                    if two && matches!(twin_svm(&c), Some(Some(_))) { cur = c; progress = true; } else { i += 1; }
+                }
+            }
+            let (cur, d) = match twin_svm(&cur) {
+                Some(Some(d)) => (cur, d),
+                _ => match twin_svm(t) {
+                    Some(Some(d)) => (t.clone(), d),
+                    _ => return true, // not reproducible (SVC schedules differ from run to run): not reported without a replay
+                },
+            };
+            let mut w = cur.to_json();
+            w["differing_call"] = json!(d.call);
+            out.count(&format!("twin:failing:{}", if t.svc { "SVC" } else { "SVR" }));
+            out.fail(twin::ORACLE, &format!("{} ({} kernel): {}: {}", if t.svc { "SVC" } else { "SVR" }, t.k.name(), d.call, d.what), w);
+            false
+        }
+    }
+}
+
+// ------------------------------------------------------------------------------------------
 /// one replay / corpus input evaluated by the oracle of its entry; false = unknown entry
 fn run_entry(out: &mut Out, rng: &mut Rng, inp: &Value, family: &str) -> bool {
     let k = Kern::from_json(&inp["kernel"]);
@@ -1492,6 +1648,15 @@ fn run_entry(out: &mut Out, rng: &mut Rng, inp: &Value, family: &str) -> bool {
         "gram_offset" => {
             let mut m = 0.0;
             check_gram_offset(out, &k, &rows_from_json(&inp["x"]), Prec::from_json(&inp["prec"]), "replay", &mut m);
+        }
+        "twin" => {
+            let t = TwinSvm::from_json(inp);
+            // SVC: one random schedule per fit; a handful of repetitions
+            for _ in 0..(if t.svc { 5 } else { 1 }) {
+                if !check_twin(out, &t) {
+                    break;
+                }
+            }
         }
         _ => return false,
     }
@@ -1535,7 +1700,7 @@ fn main() {
     let mut rng = Rng::new(a.seed);
     let mut out = Out::new(
         "C10",
-        "search case = one fit (SVC: data, labels, kernel, C, epochs, tol and one random visiting schedule; SVR: data, targets, kernel, eps, C, tol), one kernel evaluation or one Gram matrix; non-trivial: SVC with >= 2 rows of each class, SVR with >= 4 rows, kernel pair with a != b, Gram of >= 3 (offset families: pairwise distinct) rows; distinct by hash of (data, parameters, precision, repetition). Families: centred data (coordinates of order 1, scales 0.01..10) and offset data (rows = common offset + spread, offset/spread 1e3..1e9 in f64 and 3e2..1e4 in f32, incl. UNIX timestamps, map coordinates, Kelvin) for kernels, Gram matrices and RBF fits",
+        "search case = one fit (SVC: data, labels, kernel, C, epochs, tol and one random visiting schedule; SVR: data, targets, kernel, eps, C, tol), one kernel evaluation or one Gram matrix; non-trivial: SVC with >= 2 rows of each class, SVR with >= 4 rows, kernel pair with a != b, Gram of >= 3 (offset families: pairwise distinct) rows; distinct by hash of (data, parameters, precision, repetition). Families: centred data (coordinates of order 1, scales 0.01..10) and offset data (rows = common offset + spread, offset/spread 1e3..1e9 in f64 and 3e2..1e4 in f32, incl. UNIX timestamps, map coordinates, Kelvin) for kernels, Gram matrices and RBF fits. api-trait twin case = one SVC / SVR fit (centred data, any kernel) fitted and queried through smartcore::api::{SupervisedEstimator, Predictor} and through the inherent methods: predictions must coincide bit for bit (SVR: also across the two fits; SVC: on the same fitted model, its fit being randomised)",
     );
     let t = a.thorough;
 
@@ -1691,6 +1856,34 @@ fn main() {
         let x: Vec<Vec<f64>> = (0..n).map(|_| (0..p).map(|_| rng.uniform(-2.0, 2.0)).collect()).collect();
         let k = if i % 2 == 0 { Kern::Linear } else { Kern::Rbf(rng.uniform(0.05, 2.0)) };
         check_gram(&mut out, &k, &x);
+    }
+
+    // ---- api-trait twins (the last draws from `rng`: the streams of the sections above and of the offset
+    //      families below are unchanged; before the families whose fits may leave spinning threads behind) ----
+    for i in 0..(if t { 500 } else { 60 }) {
+        let svc = i % 2 == 0;
+        let n = rng.usize_in(4, 24);
+        let p = rng.usize_in(1, 4);
+        let (x, y) = if svc {
+            let lp = label_pair(&mut rng);
+            gen_classification(&mut rng, n, p, i % 7 == 0, i % 4 == 0, lp)
+        } else {
+            gen_regression(&mut rng, n, p, i % 7 == 1)
+        };
+        // the kernel distributions of the SVC resp. SVR search above (no fit of these families ever hung)
+        let k = if svc {
+            random_kernel(&mut rng, p)
+        } else {
+            match rng.below(10) {
+                0 | 1 | 2 | 3 => Kern::Linear,
+                4 | 5 | 6 => Kern::Rbf(*rng.pick(&[0.1, 0.5, 1.0])),
+                7 | 8 => Kern::Poly(*rng.pick(&[1.0, 2.0, 3.0]), *rng.pick(&[0.25, 0.5, 1.0 / p as f64]), *rng.pick(&[0.0, 1.0])),
+                _ => Kern::Sigmoid(0.1, 0.0),
+            }
+        };
+        let q: Vec<Vec<f64>> = (0..3).map(|_| (0..p).map(|_| rng.dyadic(4, 2)).collect()).collect();
+        let tw = TwinSvm { svc, k, x, y, c: *rng.pick(&cs), eps: *rng.pick(&[0.0, 0.05, 0.1, 0.3, 0.5]), epoch: rng.usize_in(1, 3), tol: *rng.pick(&tols), q };
+        check_twin(&mut out, &tw);
     }
 
     // ---- offset families (rows = large common offset + small spread), own stream derived from the seed ----
